@@ -35,4 +35,4 @@ For each variant deliver in `/tmp/seed-out/{pid}/<{v1}|{v2}>/`:
  - `demo_test.go` — a self-contained Go test that FAILS with the change and PASSES on the unmodified tree{" when run with `go test -race` (a race report counts as failing)" if race else ""}, demonstrating the violated property through public behaviour;
  - `meta.json` with keys: `property` ("{pid}"), `variant`, `summary` (what was changed and what goes wrong), `needs` (the specific circumstances needed to see it), `files` (list), `demo_cmd` (a shell command run from the worktree root that copies the demo into place and runs it, e.g. `cp /tmp/seed-out/{pid}/{v1}/demo_test.go sm2/{pid.lower()}{v1}_demo_test.go && go test {"-race " if race else ""}-vet=off -count=1 -run Test{pid}{v1} ./sm2`), `verified` (object with booleans suite_passes_with_change, demo_fails_with_change, demo_passes_without_change — set from what you actually ran).
 
-Verify all three facts yourself for each variant. When done, leave the worktree clean (`git checkout -- . && git clean -fdq`; a stray `pkcs12/test.p12` may be removed). Report briefly (a few lines) what each variant does.""")
+Never use `git stash` (the stash is shared between all worktrees of this repository and other agents work in parallel); to go back to the clean tree use `git apply -R <your patch>` or `git checkout -- <files>`. Verify all three facts yourself for each variant. When done, leave the worktree clean (`git checkout -- . && git clean -fdq`; a stray `pkcs12/test.p12` may be removed). Report briefly (a few lines) what each variant does.""")
